@@ -7,7 +7,10 @@ CONSTANTS
   ExclusiveHost = TRUE
   ChecksFlag = TRUE
   SyntheticWrite = FALSE
+  LastWins = TRUE
+  MaxDup = 2
+  MaxMeta = 0
 SPECIFICATION Spec
-INVARIANTS TypeOK Isolation NoTornRead Frozen CancelledOnlyIfPending VersionsDistinct
-PROPERTIES Prompt SnapshotSeesCommitted
+INVARIANTS TypeOK Isolation NoTornRead Frozen CancelledOnlyIfPending VersionsDistinct NoIntermediate
+PROPERTIES Prompt SnapshotSeesCommitted ApplyEffect
 CHECK_DEADLOCK TRUE
